@@ -55,7 +55,22 @@ def c02(ctx):
 @register("C08")
 def c08(ctx):
     cov = run(ctx, ["C08."], 16, 300, 0, 0, "I/O order (write-ahead discipline)")
-    vlib.write_evidence(ctx, "model_checking", cov, ASSUME)
+    # the same storage-boundary rules under goroutine concurrency: 8 clients through the request manager on small
+    # pools (evictions), page writes and log writes totally ordered by the recording wrapper's mutex
+    conc = {}
+    for procs in (4, 16):
+        io = os.path.join(ctx.work, "io-p%d.ndjson" % procs)
+        h = os.path.join(ctx.work, "hist-p%d.ndjson" % procs)
+        vlib.vdrive(ctx, ["rm", "hist", h, 18 if ctx.tier == "thorough" else 6, 8, 30, procs], timeout=1800, ok_codes=(0, 3),
+                    env={"VERIF_IOTRACE": io, "VERIF_SEED": str(ctx.seed * 31 + procs)})
+        res = vlib.validate(ctx, crash.FAM, "CrashModelTrace", "Trace.cfg", io, name="val-io-p%d" % procs, timeout=1800)
+        judge(ctx, res, io, "I/O order under concurrency (GOMAXPROCS=%d)" % procs, prefixes=["C08."])
+        c = crash.count_events(io)
+        conc["gomaxprocs_%d" % procs] = dict(c)
+        if c["WLog"] == 0 or c["WPage"] == 0:
+            raise Inconclusive("vacuous: concurrent run produced %s" % dict(c))
+    cov["concurrent_io_events"] = conc
+    vlib.write_evidence(ctx, "model_checking", cov, ASSUME + ["concurrent runs check the page-LSN and log well-formedness rules; commit-return ordering is checked in the single-goroutine workloads only"])
 
 
 @register("C20")
